@@ -16,31 +16,38 @@ Import ListNotations.
 (* ------------------------------------------------------------------------------------ *)
 (* 1. the generated conditions *)
 
+(* case analysis on every N comparison of the goal: the proofs below do not depend on which
+   of <, <=, >, >= (or their negations) the header uses, only on what they decide *)
+Ltac n_cmp :=
+  repeat match goal with
+  | |- context [N.leb ?a ?b] => destruct (N.leb_spec a b)
+  | |- context [N.ltb ?a ?b] => destruct (N.ltb_spec a b)
+  | |- context [N.eqb ?a ?b] => destruct (N.eqb_spec a b)
+  end; cbn [negb andb orb].
+
 Lemma split_complementary : forall size maxSize : N,
   (GenAnyData.inline_cond size maxSize = true /\ GenAnyData.heap_cond size maxSize = false) \/
   (GenAnyData.inline_cond size maxSize = false /\ GenAnyData.heap_cond size maxSize = true).
 Proof.
   intros size maxSize. unfold GenAnyData.inline_cond, GenAnyData.heap_cond.
-  destruct (N.leb_spec size maxSize); destruct (N.ltb_spec maxSize size); auto; lia.
+  n_cmp; auto; lia.
 Qed.
 
 Lemma inline_in_bounds : forall size maxSize : N,
   GenAnyData.inline_cond size maxSize = true -> (size <= maxSize)%N.
 Proof.
   intros size maxSize. unfold GenAnyData.inline_cond.
-  destruct (N.leb_spec size maxSize); [auto | discriminate].
+  n_cmp; intro; try discriminate; lia.
 Qed.
 
 Lemma large_fits : forall cap ls : N, (ls <= eff cap ls)%N /\ (cap <= eff cap ls)%N.
 Proof.
-  intros cap ls. unfold eff, GenAnyData.eff_max_size.
-  destruct (N.ltb_spec cap ls); lia.
+  intros cap ls. unfold eff, GenAnyData.eff_max_size. n_cmp; lia.
 Qed.
 
 Lemma eff_is_max : forall cap ls : N, eff cap ls = N.max cap ls.
 Proof.
-  intros cap ls. unfold eff, GenAnyData.eff_max_size.
-  destruct (N.ltb_spec cap ls); lia.
+  intros cap ls. unfold eff, GenAnyData.eff_max_size. n_cmp; lia.
 Qed.
 
 Lemma max_size_of_upper : forall ts t x, In x (t :: ts) -> (x <= max_size_of t ts)%N.
@@ -49,8 +56,8 @@ Proof.
   - simpl in *. unfold GenAnyData.max_size_single. destruct Hin as [<-|[]]. lia.
   - cbn [max_size_of]. unfold GenAnyData.max_size_step.
     destruct Hin as [<-|Hin].
-    + destruct (N.ltb_spec (max_size_of t' ts) t); lia.
-    + specialize (IH t' x Hin). destruct (N.ltb_spec (max_size_of t' ts) t); lia.
+    + n_cmp; lia.
+    + specialize (IH t' x Hin). n_cmp; lia.
 Qed.
 
 Lemma max_size_of_member : forall ts t, In (max_size_of t ts) (t :: ts).
@@ -58,7 +65,7 @@ Proof.
   induction ts as [|t' ts IH]; intros t.
   - simpl. unfold GenAnyData.max_size_single. auto.
   - cbn [max_size_of]. unfold GenAnyData.max_size_step.
-    destruct (N.ltb_spec (max_size_of t' ts) t); [left; reflexivity | right; apply IH].
+    specialize (IH t'). n_cmp; solve [left; reflexivity | right; exact IH | left; lia | right; replace t with (max_size_of t' ts) by lia; exact IH].
 Qed.
 
 Lemma fold_max_upper : forall ts t x, In x (t :: ts) -> (x <= fold_right N.max t ts)%N.
@@ -87,14 +94,12 @@ Proof.
   - apply max_size_of_upper, fold_max_member.
 Qed.
 
-Lemma max_size_of_fits : forall ls t ts x, In x (t :: ts) ->
-  GenAnyData.inline_cond x (eff (max_size_of t ts) ls) = true /\ GenAnyData.heap_cond x (eff (max_size_of t ts) ls) = false.
+Lemma max_size_of_max : forall t ts,
+  In (max_size_of t ts) (t :: ts) /\ (forall x, In x (t :: ts) -> (x <= max_size_of t ts)%N) /\
+  max_size_of t ts = fold_right N.max t ts.
 Proof.
-  intros ls t ts x Hin. pose proof (max_size_of_upper ts t x Hin) as Hle.
-  pose proof (large_fits (max_size_of t ts) ls) as [_ Hc].
-  destruct (split_complementary x (eff (max_size_of t ts) ls)) as [H|[H1 H2]]; [exact H|].
-  exfalso. revert H1. unfold GenAnyData.inline_cond.
-  destruct (N.leb_spec x (eff (max_size_of t ts) ls)); [discriminate | lia].
+  intros t ts. split; [apply max_size_of_member|]. split; [intros x Hx; apply max_size_of_upper; exact Hx|].
+  apply max_size_of_is_max.
 Qed.
 
 (* pointer codes *)
